@@ -39,4 +39,7 @@ def obligations(tier, seed=0):
         for rnd in RNDS:
             for odd in (0, 1):
                 obs.append((FA + 'sqrt', dict(bc=bc, prec=prec, rnd=rnd, odd=odd)))
+    # the pure-Python integer square root with remainder behind exact square roots at high precision
+    for bits in (4, 7, 10, 13):
+        obs.append(('checks.fam_twin:sqrtrem_loops', dict(bits=bits)))
     return obs
